@@ -4,7 +4,7 @@
     mode change, command change, the -1/-0 decision) interleave step by step; [run (init ...) ls] is
     the state after the label sequence [ls], for any [ls].  [nres] is --header-lines, [ncie] is
     --no-clear-if-empty, [mp q x] says whether item x matches query/mode q (C03). *)
-From SkimV Require Import Common.Base Gen.PipelineOrder Model.PipelineOrder Model.Pipeline Proof.Pipeline Proof.PipelineLive.
+From SkimV Require Import Common.Base Gen.PipelineOrder Model.PipelineOrder Model.Pipeline Model.PipelineAbs Proof.Pipeline Proof.PipelineLive Proof.Fair Proof.PipelineProgress.
 From Coq Require Import Permutation.
 
 (** the invariant holds in every reachable state, whatever the interleaving and edit history *)
@@ -97,6 +97,40 @@ Theorem c01_idle_done_is_calm : forall s, pc s = [] -> rdone s = true -> consume
 Proof. exact idle_done_calm. Qed.
 Print Assumptions c01_idle_done_is_calm.
 
+(** "reached without a further keystroke", in full for the transition system.  An execution is an
+    infinite sequence of instants at each of which an internal step is taken -- a step of the matcher
+    thread, the exit of a harvested thread, the refresh timer firing, the next operation of the event
+    loop, the dispatch of a QUEUED heartbeat: no keystroke, no further input, no heartbeat out of
+    nowhere -- or nothing happens.  It is weakly fair if no such step stays enabled for ever without
+    being taken (every thread, the timer and the event loop get their turn).  Then: from any reachable
+    state in which the source has ended and no command change is in flight, EVERY weakly fair
+    execution reaches a quiescent state with no heartbeat queued and no timer armed, in which the list
+    is exactly the matching items, and a pending -1 / -0 / sync has been decided.  (The ranking behind
+    it is synthesised over a finite abstraction of the transition system and checked over all of its
+    9738 reachable abstract states: Proof/PipelineProgress.v.) *)
+Theorem c01_fair_quiescence : forall nres ncie mp source q0 a b c ls s0 (sigma : nat -> st) (lam : nat -> option label),
+  run nres ncie mp (init source q0 a b c) ls = Some s0 -> alive s0 = false -> no_cmd (map amop_of (pc s0)) = true ->
+  sigma 0 = s0 ->
+  exec st label (step nres ncie mp) inner sigma lam -> wfair st label (step nres ncie mp) inner sigma lam ->
+  exists t, quiescent (sigma t) /\ hbq (sigma t) = 0 /\ timer (sigma t) = false /\
+            (ncie = false -> Permutation (L (sigma t)) (complete nres mp (sigma t))) /\
+            (a || b || c = true -> decided (sigma t) <> None).
+Proof. exact fair_quiescence. Qed.
+Print Assumptions c01_fair_quiescence.
+
+(** the steps considered keep the region, never raise the rank, and the helpful one is enabled and
+    lowers it (the premises of the rule, stated for the pipeline) *)
+Theorem c01_helpful_step_enabled : forall nres ncie mp s,
+  in_region s -> at_rest s = false -> inner s (phelp s) /\ exists s', step nres ncie mp s (phelp s) = Some s'.
+Proof. exact help_enabled. Qed.
+Print Assumptions c01_helpful_step_enabled.
+
+Theorem c01_rank_never_rises : forall nres ncie mp s l s',
+  in_region s -> at_rest s = false -> inner s l -> step nres ncie mp s l = Some s' ->
+  in_region s' /\ (at_rest s' = true \/ prank s' < prank s \/ (l <> phelp s /\ prank s' = prank s /\ phelp s' = phelp s)).
+Proof. exact inner_step. Qed.
+Print Assumptions c01_rank_never_rises.
+
 (** the code still has the skeleton the transition system stands for: in the event loop, matcher, reader and pool, the
     shared-state operations extracted from the Rust sources on this run (Gen/PipelineOrder.v) are
     the ones, in the order, that the model's steps were written for (Model/PipelineOrder.v) *)
@@ -120,3 +154,30 @@ Example c01_example :
   exists s, run 0 false ex_mp (init [1; 2; 3]%N 0%N false false false) ex_labels = Some s /\
             quiescent s /\ L s = [(1%N, 0); (3%N, 2)] /\ q s = 1%N.
 Proof. eexists. split; [vm_compute; reflexivity|]. unfold quiescent. cbn. repeat split; reflexivity. Qed.
+
+(** Non-vacuity of c01_fair_quiescence: such executions exist.  Three items and the end of input
+    arrive before the first heartbeat; from there the internal steps below, continued by doing
+    nothing, form an execution that is weakly fair (in its last state no internal step is enabled),
+    and it ends at rest with the matching item listed and --select-1 decided. *)
+Definition fq_pre : list label := [LPush; LPush; LPush; LEof].
+Definition fq_post : list label :=
+  [LHb; LMain; LMain; LMain; LMain; LMain; LMain; LMain;
+   LMLoad; LMTake; LMPublish; LMNotify; LMFlag; LMExit;
+   LHb; LMain; LMain; LMain; LMain; LMain; LMain; LMain;
+   LTimer; LHb; LMain; LMain; LMain; LMain; LMain; LMain].
+Example c01_fair_example :
+  exists s0 s1,
+    run 0 false ex_mp (init [1; 2; 3]%N 0%N true true false) fq_pre = Some s0 /\ alive s0 = false /\
+    no_cmd (map amop_of (pc s0)) = true /\
+    run 0 false ex_mp s0 fq_post = Some s1 /\
+    exec st label (step 0 false ex_mp) inner (state_at 0 false ex_mp fq_post s0) (nth_error fq_post) /\
+    wfair st label (step 0 false ex_mp) inner (state_at 0 false ex_mp fq_post s0) (nth_error fq_post) /\
+    at_rest s1 = true /\ L s1 = [(2%N, 1)] /\ decided s1 = Some Accept.
+Proof.
+  eexists. eexists. split; [vm_compute; reflexivity|]. split; [reflexivity|]. split; [reflexivity|].
+  split; [vm_compute; reflexivity|].
+  split; [apply finite_exec; vm_compute; reflexivity|].
+  split; [|vm_compute; auto].
+  eapply finite_fair; [vm_compute; reflexivity|].
+  intros l Hl. destruct l; cbn in Hl; try contradiction; try (vm_compute; reflexivity). inversion Hl.
+Qed.
